@@ -275,6 +275,8 @@ def run_real(sc, line_preempt=None, wall_s=20.0, max_steps=6000):
     horizon = sc.get("horizon", 60 * TPS)
     s = simsched.Sched(schedule=[int(ch) for ch in (sc.get("sched") or "")], horizon=horizon,
                        wall_s=wall_s, max_steps=max_steps)
+    if sc.get("stall_after_send"):
+        s.stall_after_send = tuple(sc["stall_after_send"])
     net = MultiNet(s, ssl_style=bool(sc.get("ssl")))
     plan = sc.get("plan", {})
     counts = {n: 0 for n in CBS}
